@@ -100,7 +100,7 @@ def r1f_optional(repo, rep, closure):
     for node in ctx.g.nodes:
       for e in ctx.node_exprs(node):
         for sub in walk_no_nested(e):
-          site = deref_of(sub, lambda x: isinstance(x, ast.Attribute) and norm(x.value) == 'self.diag' and x.attr in opt, ctx.rd, node)
+          site = deref_of(sub, lambda x: isinstance(x, ast.Attribute) and norm(ctx.rd.expand(node, x.value)[0]) == 'self.diag' and x.attr in opt, ctx.rd, node)
           if site is None:
             continue
           what, src_expr, name = site
@@ -178,6 +178,9 @@ def discharged_in_diag(f, ctx, node, sub, src_expr, name, xonly, sn):
     m = re.fullmatch(r'%s\.(\w+) is None' % sn, s)
     if (not t) and m and m.group(1) in xonly and name in xonly:
       return True     # another member that is None exactly when x is missing was tested
+    m = re.fullmatch(r'%s\.(\w+)' % sn, s)
+    if t and m and m.group(1) in xonly and name in xonly:
+      return True     # ... or found truthy (None is falsy)
     return False
   allok = bool(paths)
   for p in paths:
@@ -319,7 +322,13 @@ def r1d_greedy_keys(repo, rep):
         work.append(m)
     return blk
   clears = [n for n in g.nodes if inside(n) and n.kind == 'stmt' and isinstance(n.ast, ast.Assign) and norm(n.ast.targets[0]) == flag and au.is_const(n.ast.value, False)]
-  incs = [n for n in g.nodes if inside(n) and n.kind == 'stmt' and isinstance(n.ast, ast.Assign) and norm(n.ast.targets[0]) == k]
+  incs = [n for n in g.nodes if inside(n) and n.kind == 'stmt' and (
+      (isinstance(n.ast, ast.Assign) and norm(n.ast.targets[0]) == k) or (isinstance(n.ast, ast.AugAssign) and norm(n.ast.target) == k))]
+
+  def by_one(st):
+    if isinstance(st, ast.AugAssign):
+      return isinstance(st.op, ast.Add) and au.is_const(st.value, 1)
+    return norm(st.value) in ('%s + 1' % k, '1 + %s' % k)
   def stores_in(blk, key):
     out = set()
     for m in blk:
@@ -333,7 +342,7 @@ def r1d_greedy_keys(repo, rep):
   rep.check(bool(clears) and bool(C), 'R1d/dict-keys', 'the flag is cleared only together with a store under the current key (%s)' % sorted(C), f.qualname,
             '%s = False' % flag, 'the matching flag is cleared without storing the matched control group under the current key: a later read of that key fails (KeyError)',
             f.loc(clears[0].ast) if clears else f.loc(w))
-  okinc = bool(incs) and all(norm(n.ast.value) in ('%s + 1' % k, '1 + %s' % k) for n in incs) and bool(T)
+  okinc = bool(incs) and all(by_one(n.ast) for n in incs) and bool(T)
   rep.check(okinc, 'R1d/dict-keys', 'the counter advances only together with a store under key %s + 1 (%s)' % (k, sorted(T)), f.qualname, '%s = %s + 1' % (k, k),
             'the size counter advances without the treatment group of the next size having been stored: reading it raises KeyError', f.loc(incs[0].ast) if incs else f.loc(w))
   rearm = all(any(m.kind == 'stmt' and isinstance(m.ast, ast.Assign) and norm(m.ast.targets[0]) == flag and au.is_const(m.ast.value, True) for m in block_of(n)) for n in incs)
